@@ -23,7 +23,11 @@ RULE = ("K on generated tiny scenes (3-6 cells per axis, periodic/PEC/PMC/PML fa
         "with record_detectors True/False on ONE container that was used before (the arrays returned by a recorded run_fdtd, "
         "and those arrays spoiled with NaN/inf): after every call each detector-state row the call did not itself record must "
         "be +0.0 bit-exactly (reset_container=True) resp. bit-identical to before (False); the per-row provenance (zero / kept "
-        "/ recorded) and the executed steps are also compared with the model (`cfrd`). non-trivial = a history with >= 2 pieces, a window hitting a bound, a dirty / spoiled "
+        "/ recorded) and the executed steps are also compared with the model (`cfrd`); (f) always: on a scene with a magnetic-"
+        "conductivity block, run_fdtd under gradient_config reversible / checkpointed / None on a fresh placement, then a second "
+        "run from the RETURNED arrays (run_fdtd again, custom_fdtd_forward(reset_container=True) in one or two pieces): it must "
+        "reproduce the first run and the returned container must keep all material / conductivity arrays (electric-conductivity "
+        "scene: reversible in quick, all in thorough). non-trivial = a history with >= 2 pieces, a window hitting a bound, a dirty / spoiled "
         "start, or a reset input with a non-finite / negative entry.")
 
 
@@ -138,7 +142,8 @@ def flat_container(j, arr):
     jax = j["jax"]
 
     def cat(leaves):
-        leaves = [np.asarray(x, dtype=np.float64).ravel() for x in leaves if hasattr(x, "shape")]
+        leaves = [np.asarray(x) for x in leaves if hasattr(x, "shape")]
+        leaves = [(np.stack([x.real, x.imag], axis=-1) if np.iscomplexobj(x) else x).astype(np.float64).ravel() for x in leaves]
         return np.concatenate(leaves) if leaves else np.zeros(0)
 
     fields = cat(jax.tree.leaves(arr.fields))
@@ -300,6 +305,77 @@ def flags_fail(S, before, calls, seed=0, ctx=None, case=None):
 def base_h2f(h):
     from .common import h2f
     return h2f(h)
+
+
+# ------------------------------------------------------------------------------------ rerun from returned arrays, any strategy
+def rerun_fails(sc, g, mode, tol=1e-9, ctx=None, case=None):
+    """run_fdtd under gradient config g on a fresh placement, then a SECOND run started from the arrays it returned
+    (mode 'run': run_fdtd again; 'cf': custom_fdtd_forward(reset_container=True, 0->T); 'split': the same in two pieces).
+    The second run must reproduce the run from the fresh placement: step count, E/H, detector states, and the returned
+    container must still hold every material / conductivity array."""
+    j = base.J()
+    jax, fdtdx = j["jax"], j["fdtdx"]
+    from fdtdx.fdtd.fdtd import custom_fdtd_forward
+    o, a, cfg = base.build(sc, g)
+    key = jax.random.PRNGKey(2)
+    T = sc["T"]
+    ts1, out1 = fdtdx.run_fdtd(a, o, cfg, key, show_progress=False)
+    t1, ref = base.snapshot(ts1, out1)
+    del base.LOG[:]
+    if mode == "run":
+        ts2, out2 = fdtdx.run_fdtd(out1, o, cfg, key, show_progress=False)
+    elif mode == "cf":
+        ts2, out2 = custom_fdtd_forward(out1, o, cfg, key, True, True, 0, T, show_progress=False)
+    else:
+        b = max(1, T // 2)
+        _, mid = custom_fdtd_forward(out1, o, cfg, key, True, True, 0, b, show_progress=False)
+        ts2, out2 = custom_fdtd_forward(mid, o, cfg, key, False, True, b, T, show_progress=False)
+    jax.block_until_ready(out2.fields.E)
+    jax.effects_barrier()
+    log = list(base.LOG)
+    t2, s2 = base.snapshot(ts2, out2)
+    if ctx is not None:
+        rep = ctx.driver.ask_many([f"cf {T} 0 {T} 2 1"])[0]
+        ctx.expect_equal("rerun-steps", case, f"{t2} | {' '.join(map(str, log))}", rep)
+    what = f"second run ({mode}) from the arrays returned by run_fdtd under {json.dumps(g)}"
+    if t1 != T or t2 != T:
+        return f"{what}: step counts {t1}, {t2}, expected {T}"
+    fresh = base.snapshot(0, a)[1]
+    lost = sorted(k for k in fresh if k.startswith("mat:") and k not in ref)
+    lost2 = sorted(k for k in ref if k not in s2)
+    common = {k: s2[k] for k in s2 if k in ref}
+    ok, txt = base.snap_diff(common, {k: ref[k] for k in common}, tol)
+    if lost or lost2 or not ok:
+        return (f"{what} does not reproduce the run from the fresh placement: {txt}"
+                + (f"; the container returned by the first run lost {lost} (present in the placed container)" if lost else "")
+                + (f"; the second run's container lost {lost2}" if lost2 else ""))
+    return None
+
+
+GRADS = [{"method": "reversible", "c": 0}, {"method": "checkpointed", "n": 2}, {"method": "none"}]
+
+
+def k_rerun(ctx):
+    """(f) lossy scenes: rerun from returned arrays under every gradient strategy"""
+    T = ctx.rng.randint(5, 8)
+    for li, lossy in enumerate(({"sigma_m": float(ctx.rng.choice([1e9, 3e9]))}, {"sigma_e": float(ctx.rng.choice([1e5, 3e4]))})):
+        sc = {"shape": [ctx.rng.randint(3, 5) for _ in range(3)], "T": T, "bound": ctx.rng.choice(["periodic", "pec"]),
+              "src": "dipole", "pol": ctx.rng.randint(0, 2), "src_switch": None,
+              "dets": [{"kind": "field", "switch": base.gen_switch(ctx.rng, T)}, {"kind": "phasor", "switch": None}],
+              "spp": 4.0, "eps": ctx.rng.choice([None, 2.25]), **lossy}
+        grads = GRADS if (li == 0 or ctx.thorough) else GRADS[:1]
+        for gi, g in enumerate(grads):
+            if g["method"] == "reversible" and ctx.rng.chance(0.5):
+                g = {"method": "reversible", "c": ctx.rng.randint(1, min(2, T - 1))}
+            modes = ["run", "cf", "split"] if ctx.thorough else [["run", "cf", "split"][(gi + li) % 3]] + (["run"] if (gi + li) % 3 else [])
+            for mode in modes:
+                case = {"kind": "rerun", "scene": sc, "grad": g, "mode": mode}
+                ctx.case(nontrivial=("rerun", li, json.dumps(g, sort_keys=True), mode), op="rerun-from-output", method=g["method"],
+                         mode=mode, conductivity="magnetic" if "sigma_m" in lossy else "electric")
+                ctx.impl_property_evals += 1
+                d = rerun_fails(sc, g, mode, ctx=ctx, case=case)
+                if d:
+                    ctx.violation(case, d)
 
 
 # ------------------------------------------------------------------------------------ property oracle
@@ -489,6 +565,7 @@ def run(ctx):
         # an accumulating detector: its record after a rerun depends on what reset left in the state
         sc["dets"] = sc["dets"][:2] + [{"kind": "phasor", "switch": base.gen_switch(ctx.rng, sc["T"]), "reduce": ctx.rng.chance(0.5)}]
         k_scene(ctx, sc, i)
+    k_rerun(ctx)
     # reset: one scene without and one with a recording state (reversible gradient config + PML)
     sc0 = base.gen_scene(ctx.rng.fork(), 8, 0)
     k_reset(ctx, sc0, {"method": "none"}, 0)
@@ -505,6 +582,17 @@ def search(ctx, hints):
             if d:
                 ctx.violation(h, d)
                 return
+    for lossy in ({"sigma_m": 1e9}, {"sigma_e": 1e5}, {}):
+        sc = {"shape": [3, 3, 4], "T": 4, "bound": "periodic", "src": "dipole", "pol": 2, "src_switch": None,
+              "dets": [{"kind": "field", "switch": None}, {"kind": "phasor", "switch": None}], "spp": 4.0, "eps": None, **lossy}
+        for g in GRADS:
+            for mode in ("run", "cf", "split"):
+                case = {"kind": "rerun", "scene": sc, "grad": g, "mode": mode}
+                ctx.impl_property_evals += 1
+                d = rerun_fails(sc, g, mode)
+                if d:
+                    ctx.violation(case, d)
+                    return
     # smallest first: every split point / every two split points of short runs, then reuse sequences, then reset
     for T in (2, 3, 5, 8):
         for bound in ("periodic", "pec"):
@@ -566,6 +654,8 @@ def replay(ctx, inp):
         if 0 <= a <= b <= T:
             return history_fails(Scene(inp["scene"]), sorted({0, a, b, T}) if a != b else [0, a, b, T])
         return None
+    if kind == "rerun":
+        return rerun_fails(inp["scene"], inp["grad"], inp["mode"])
     if kind == "flags":
         return flags_fail(Scene(inp["scene"]), inp["before"], [tuple(c) for c in inp["calls"]], inp.get("seed", 0))
     if kind == "reset":
